@@ -21,3 +21,19 @@ func lemmaC03ScaleNotesAccepted(k Key, i, j int, rootSharp, bassSharp bool) (roo
 	bass, err2 = s.Notes[i].GetDegree(s.Notes[j], bassSharp)
 	return root, err1, bass, err2
 }
+
+// lemmaC17InScale: the i-th diatonic triad / seventh chord of a supported key.
+func lemmaC17InScale(k Key, i int, seventh bool) (root *ScaleNote, name string, err error) {
+	s, err := NewScale(k)
+	if err != nil {
+		return nil, "", err
+	}
+	c := NewDiatonicChorder(s)
+	var chords [7]DiatonicChord
+	if seventh {
+		chords = c.Sevenths()
+	} else {
+		chords = c.Triads()
+	}
+	return chords[i].Note, chords[i].Name, nil
+}
